@@ -436,7 +436,7 @@ theorem nl_step (k : Keys) (c : RCfg) (L w N : Nat) (B P B' : Block) (sgq : Sig)
                                ghost := sA.ghost ++ [.adv sA.view q.view false], queue := [.viewChange (w + 1) false]
                                out := [.sendNewView L { qc := some q }] }
   have hadv : (advanceView k c { qc := some q }).run sA = pure ((), s1) := by
-    rw [advanceView_move k c sA q B ha (hverA sA rfl rfl) hlkB (by show s.view ≤ q.view; rw [hcore.view, hqv]; exact Nat.le_refl _)]
+    rw [advanceView_move k c sA q B ha (hverA sA rfl rfl) hlkB (by show s.view = q.view; rw [hcore.view, hqv])]
     have hnl : ¬ c.leader (sA.view + 1) = c.id := by rw [hlead]; exact fun e => hne e.symm
     rw [if_neg hnl]
     have hhq : ¬ B.view ≤ s.highQC.view := by rw [hcore.bview]; have := hcore.hq; omega
@@ -858,7 +858,7 @@ theorem ld_vote_quorum (k : Keys) (c : RCfg) (w N i id bytes : Nat) (B P : Block
     (by rw [hs6vl]; simp) (by rw [hs6vl]; simp; omega)
   let F : RState := addVoteS s6 b'.hash c.id (voteSig c b' (propS m))
   have hadv : (advanceView k c { qc := some qc }).run sC = pure ((), F) := by
-    rw [advanceView_move k c sC qc B ha (hverAll sC rfl rfl) hc.hasB (by rw [hsCview]; show w ≤ B.view; rw [hc.bview]; exact Nat.le_refl _)]
+    rw [advanceView_move k c sC qc B ha (hverAll sC rfl rfl) hc.hasB (by rw [hsCview]; show w = B.view; rw [hc.bview])]
     rw [if_pos (hlead _), hmhq, hrun, aggregateVote_self k c b' _ _ (by rw [hlead])]
     exact hcv2
   have ht2 : (tick k c).run sB = pure (true, F) :=
